@@ -348,7 +348,7 @@ fn gen_members(u: &mut Choices, bias: &str) -> Vec<Option<V>> {
             }
             // (ints that are a digit modulo 2^32 / 2^8 / 2^16, and the bounds)
             1 if bias == "char" => Some(V::Int(*u.pick(&[0i64, 1, 9, 5, 10, -1, 42, 7, 4294967296, 4294967301, -4294967291, 261, 65541, 48, 57, i64::MAX, i64::MIN, 18446744073709551i64]))),
-            1 => Some(V::Int(*u.pick(&[0i64, 1, -3, 42, 7]))),
+            1 => Some(V::Int(*u.pick(&[0i64, 1, -3, 42, 7, 9007199254740993, -9007199254740995, i64::MAX, i64::MIN, 4611686018427387905]))),
             2 if bias == "int" => Some(V::Float(*u.pick(&[1.5f64, -4.7, 2.0, 1e21, -1e30, 9.3e18, 0.99]))),
             2 => Some(V::Float(*u.pick(&[1.5f64, 0.5, 2.0, 10.25, -4.0]))),
             3 => Some(V::Bool(u.chance(1, 2))),
